@@ -206,6 +206,6 @@ Qed.
 Theorem C08_std_phase_same_value : forall x, cos (wrap_phase x) = cos x /\ sin (wrap_phase x) = sin x.
 Proof. exact wrap_phase_same_value. Qed.
 Print Assumptions C08_std_phase_same_value.
-Theorem C08_std_phase_range : forall x, - 7 * PI <= x < 7 * PI -> - PI <= wrap_phase x < PI.
+Theorem C08_std_phase_range : forall x, - 3 * PI <= x < 3 * PI -> - PI <= wrap_phase x < PI.
 Proof. exact wrap_phase_range. Qed.
 Print Assumptions C08_std_phase_range.
